@@ -683,7 +683,7 @@ class HTMLTreeBuilder(TreeBuilder):
             tag["charset"] = CharsetMetaAttributeValue(charset)
             substituted = True
 
-        elif content is not None and any(
+        if content is not None and any(
             x.lower() == "content-type" for x in http_equiv
         ):
             # HTML 4 style:
